@@ -7,6 +7,7 @@ import importlib
 import os
 import subprocess
 import sys
+import time
 import traceback
 import z3
 from .sorts import *      # noqa
@@ -263,8 +264,97 @@ def undo(patches):
             pass
 
 
+# refutation back ends: the same query under several z3 parameter sets, each in its own forked process doing the whole
+# solve -> rebuild -> native replay; the first counter-model wins.  (One parameter set alone is unstable on sequence-heavy
+# bounded queries: the same input took 10 s .. >90 s depending on seed / relevancy.)
+REFUTE_CONFIGS = [{}, {'smt.relevancy': 0}, {'smt.relevancy': 0, 'smt.mbqi': False}, {'smt.arith.solver': 2},
+                  {'smt.relevancy': 0, 'smt.random_seed': 11}]
+REFUTE_SECONDS = 90
+
+
 def refute_and_replay(o, frb, K, pid):
-    """-> None when no bounded counter-model exists; else a dict describing model, native run, comparison"""
+    """-> None when no bounded counter-model was found; else a dict describing model, native run, comparison"""
+    import pickle, select, signal
+    kids = {}
+    for cfg in REFUTE_CONFIGS:
+        r, w = os.pipe()
+        pid_c = os.fork()
+        if pid_c == 0:
+            os.close(r)
+            code = 0
+            try:
+                for k, v in cfg.items():
+                    z3.set_param(k, v)
+                res = _refute_one(o, frb, K, pid, cfg)
+                with os.fdopen(w, 'wb') as f:
+                    pickle.dump(res, f)
+            except BaseException as e:       # noqa
+                try:
+                    with os.fdopen(w, 'wb') as f:
+                        pickle.dump(('error', repr(e)), f)
+                except Exception:
+                    code = 3
+            os._exit(code)
+        os.close(w)
+        kids[r] = pid_c
+    best, deadline = None, time.time() + REFUTE_SECONDS + 15
+    open_fds = dict(kids)
+    while open_fds and time.time() < deadline:
+        ready, _, _ = select.select(list(open_fds), [], [], 1.0)
+        for fd in ready:
+            data = b''
+            while True:
+                chunk = os.read(fd, 1 << 16)
+                if not chunk:
+                    break
+                data += chunk
+            os.close(fd)
+            cp = open_fds.pop(fd)
+            try:
+                os.waitpid(cp, 0)
+            except OSError:
+                pass
+            try:
+                res = pickle.loads(data) if data else None
+            except Exception:
+                res = None
+            if isinstance(res, tuple) and res and res[0] == 'unsat':
+                best = None
+                open_fds_done = True
+                for fd2, cp2 in list(open_fds.items()):
+                    _kill(cp2, fd2)
+                return None
+            if isinstance(res, dict):
+                if best is None or (res.get('replayed') and not best.get('replayed')):
+                    best = res
+                if res.get('replayed'):
+                    break
+        if best is not None and best.get('replayed'):
+            break
+        if best is not None and not open_fds:
+            break
+    for fd2, cp2 in list(open_fds.items()):
+        _kill(cp2, fd2)
+    return best
+
+
+def _kill(cp, fd):
+    import signal
+    try:
+        os.kill(cp, signal.SIGKILL)
+    except OSError:
+        pass
+    try:
+        os.waitpid(cp, 0)
+    except OSError:
+        pass
+    try:
+        os.close(fd)
+    except OSError:
+        pass
+
+
+def _refute_one(o, frb, K, pid, cfg):
     fs = list(o.assumptions) + [z3.Not(o.goal)]
     inst = []
     for name, gen in solve.BI.AX_INST.items():
@@ -274,12 +364,12 @@ def refute_and_replay(o, frb, K, pid):
             except Exception:
                 pass
     s = z3.Solver()
-    s.set('timeout', 15000)
+    s.set('timeout', REFUTE_SECONDS * 1000)
     s.add(*inst)
     s.add(*[f for _, f in solve.ghost_axiom_instances(fs)])
     s.add(*fs)
     import threading
-    wd = threading.Timer(25.0, z3.main_ctx().interrupt)
+    wd = threading.Timer(REFUTE_SECONDS + 5.0, z3.main_ctx().interrupt)
     wd.daemon = True
     wd.start()
     try:
@@ -288,11 +378,13 @@ def refute_and_replay(o, frb, K, pid):
         chk = z3.unknown
     finally:
         wd.cancel()
+    if chk == z3.unsat:
+        return ('unsat',)
     if chk != z3.sat:
         return None
     m = s.model()
-    out = {'replayed': False, 'bound_K': K, 'path': o.info.get('trace'), 'solver': 'z3 %s (refutation mode: integer-range '
-           'quantifiers expanded to 0..%d, well-typed pre-state)' % (z3.get_version_string(), K - 1)}
+    out = {'replayed': False, 'bound_K': K, 'path': o.info.get('trace'), 'solver': 'z3 %s %s (refutation mode: integer-range '
+           'quantifiers expanded to 0..%d, well-typed pre-state)' % (z3.get_version_string(), cfg or '', K - 1)}
     oc = o.info.get('outcome')
     st0 = frb.old_state
     touched = frb.touched
